@@ -140,3 +140,8 @@ CASES = [
          ensures=[("decode", ens_decode)], timeout=20),
 ]
 MIN_OBLIGATIONS = 15
+
+
+from pyvc.api import bounded_via_script
+bounded = bounded_via_script("C03")
+ASSUMPTIONS.append("bounded stand-in (labelled, not a proof): alphabets / sequences / codon tables / ORFs through the public API on enumerated small inputs (bounded/C03.py)")
